@@ -275,6 +275,12 @@ pub fn check_case(case: &Case13, legs: &[Leg], rep: &mut Report) {
             return;
         }
     };
+    if orc.engine_disagrees(&case.input) {
+        // the regex library contradicts itself on this (pattern, input):
+        // recorded once, under C01; no verdict here
+        rep.count("skipped_regex_engine_disagrees_with_itself");
+        return;
+    }
     let term = case.cfg.term;
     let lines = split_lines(&case.input, term);
     let (covered, nmatches, ambiguous) = covered_lines(&orc, &case.input, &lines);
